@@ -14,6 +14,7 @@ import (
 type cutP struct {
 	Cfg   Cfg  `json:"cfg"`
 	Steps int  `json:"steps"`
+	Large int  `json:"large,omitempty"` // a tape holding one file of this many bytes (size thresholds in the restore path)
 	All   bool `json:"all"` // every byte length; otherwise write boundaries +-{0,1,255,511} and sampled interior offsets
 	Shard int  `json:"shard"`
 	Of    int  `json:"of"` // exhaustive cases are sharded: this case covers the lengths L with L % Of == Shard (the shards rebuild the same history; their tapes differ in timestamps only)
@@ -41,6 +42,16 @@ func cutCases(prop, tier string, seed uint64) []Case {
 			pb, _ := json.Marshal(cutP{Cfg: cfgs[i%len(cfgs)], Steps: steps, All: true, Shard: sh, Of: shards})
 			cases = append(cases, Case{ID: fmt.Sprintf("c06-all-%03d-%d", i, sh), Seed: subSeed(seed, prop, tier, "all", fmt.Sprint(i)), Kind: "exhaustive", P: pb})
 		}
+	}
+	// large records: restore paths may switch strategy above some size
+	largeCfgs := []Cfg{{Level: "fastest", RS: 20, WC: "file"}, {Comp: "zstandard", Level: "fastest", RS: 20, WC: "file"}, {Sig: "pgp", Level: "fastest", RS: 64, WC: "file"}, {Enc: "age", Comp: "gzip", Level: "fastest", RS: 3, WC: "memory"}}
+	nLarge := 2
+	if tier == "thorough" {
+		nLarge = 8
+	}
+	for i := 0; i < nLarge; i++ {
+		pb, _ := json.Marshal(cutP{Cfg: largeCfgs[i%len(largeCfgs)], Large: []int{2<<20 + 777, 1<<20 + 1, 9<<20 + 5, 70001}[(i/len(largeCfgs)+i)%4]})
+		cases = append(cases, Case{ID: fmt.Sprintf("c06-large-%03d", i), Seed: subSeed(seed, prop, tier, "large", fmt.Sprint(i)), Kind: "large", P: pb})
 	}
 	more := someCfgs(r, 8)
 	for i := 0; i < nSampled; i++ {
@@ -315,7 +326,11 @@ func cutRun(prop, tier string, c Case, w *Worker) (res Result) {
 	if !p.All {
 		maxLen = 0
 	}
-	t, err := buildTape(w, p.Cfg, c.Seed, p.Steps, maxLen)
+	var fixed []Op
+	if p.Large > 0 {
+		fixed = []Op{{K: "mkdir", A: "/d", Perm: 0o755}, {K: "create", A: "/d/small", Len: 300, Dist: "text", DSeed: 1}, {K: "create", A: "/d/big", Len: p.Large, Dist: "random", DSeed: c.Seed}, {K: "chmod", A: "/d/small", Perm: 0o600}}
+	}
+	t, err := buildTape(w, p.Cfg, c.Seed, p.Steps, maxLen, fixed...)
 	if err != nil {
 		res.Verdict, res.Msg = "inconclusive", "building the tape: "+err.Error()
 		return
@@ -358,7 +373,11 @@ func cutRun(prop, tier string, c Case, w *Worker) (res Result) {
 			}
 		}
 		r := newRand(c.Seed)
-		for i := 0; i < 300; i++ {
+		nrand := 300
+		if p.Large > 0 {
+			nrand = 120
+		}
+		for i := 0; i < nrand; i++ {
 			add(int64(r.Intn(len(t.img) + 1)))
 		}
 		for x := range set {
